@@ -312,7 +312,7 @@ func Run(opts Options) (*Stats, error) {
 			if n > len(group) {
 				n = len(group)
 			}
-			if err := runBatch(group[:n], np, rng, out, opts.Conc); err != nil {
+			if err := runBatch(group[:n], np, rng, out, opts.Conc, st.Batches%2 == 1); err != nil {
 				return nil, err
 			}
 			st.Batches++
@@ -325,7 +325,12 @@ func Run(opts Options) (*Stats, error) {
 	return st, nil
 }
 
-func runBatch(scns []*Scenario, np int, rng *rand.Rand, out *rec.Writer, conc int) error {
+// twins: the batch number decides whether two neighbouring plugins of the batch carry the same index AND the same name
+// (two instances of one plugin program connecting twice). They are two different plugins to the property and to
+// Adjust.tla (the ledger's owner is the position), whatever they call themselves; the order in which the adaptation
+// invokes two plugins of equal index is not specified, so the driver observes it with a probe and numbers them
+// accordingly.
+func runBatch(scns []*Scenario, np int, rng *rand.Rand, out *rec.Writer, conc int, twins bool) error {
 	r, err := rig.New()
 	if err != nil {
 		return err
@@ -338,9 +343,16 @@ func runBatch(scns []*Scenario, np int, rng *rand.Rand, out *rec.Writer, conc in
 	sort.Ints(idxs)
 	d.names = make([]string, np)
 	plugins := make([]*rig.Plugin, np)
+	twin := -1
+	if twins && np >= 2 {
+		twin = 1 + rng.Intn(np-1) // position twin is the double of position twin-1
+	}
 	for _, pos := range rng.Perm(np) {
 		idx := fmt.Sprintf("%02d", idxs[pos])
 		name := fmt.Sprintf("p%d", pos+1)
+		if pos == twin {
+			idx, name = fmt.Sprintf("%02d", idxs[pos-1]), fmt.Sprintf("p%d", pos)
+		}
 		p, err := r.AddPlugin(name, idx, pos, h)
 		if err != nil {
 			return err
@@ -350,6 +362,17 @@ func runBatch(scns []*Scenario, np int, rng *rand.Rand, out *rec.Writer, conc in
 	}
 	if err := r.WaitActive(plugins, 10*time.Second); err != nil {
 		return err
+	}
+	if twin > 0 {
+		// one more probe with everybody active: who of the two is invoked first?
+		if err := r.WaitActive(plugins, 10*time.Second); err != nil {
+			return err
+		}
+		a, b := plugins[twin-1], plugins[twin]
+		if a.ProbeSeq.Load() > b.ProbeSeq.Load() {
+			a.Pos, b.Pos = twin, twin-1
+			plugins[twin-1], plugins[twin] = b, a
+		}
 	}
 	if conc <= 1 {
 		for _, s := range scns {
